@@ -791,3 +791,97 @@ Proof.
   - exact (proj1 (read_is_latest h T H1 H2)).
   - apply Forall_forall. intros r Hr. apply (hist_rows_le h T H3). apply (proj2 (store_invariant h H1 H2)); exact Hr.
 Qed.
+
+Lemma read_none_first h T : stamps_nondecreasing h -> series_ok h ->
+  Forall (fun v => fst v <= T) h -> bi_read (store_of h) None 0 = spec_first T h.
+Proof.
+  intros H1 H2 H3. rewrite (bi_read_none _ _ T).
+  - exact (proj2 (read_is_latest h T H1 H2)).
+  - apply Forall_forall. intros r Hr. apply (hist_rows_le h T H3). apply (proj2 (store_invariant h H1 H2)); exact Hr.
+Qed.
+
+(* ------------------------------------------------------------ several versions merged by one call *)
+Lemma col_bi_merge_list d old news : news <> [] ->
+  (old = [] -> forall f, news = [f] -> (length (col d f) <= 1)%nat) ->
+  col d (bi_merge_list old news) = drop_repeats (ssort (col d old ++ col d (concat news))).
+Proof.
+  intros Hne Hraw. unfold bi_merge_list. destruct old as [|o old].
+  - destruct news as [|f [|f2 r]]; [congruence| |].
+    + simpl. rewrite app_nil_r. symmetry. apply drop_repeats_short. apply Hraw; auto.
+    + cbn [app]. rewrite col_merge_frames. reflexivity.
+  - destruct news as [|f r]; [congruence|]. cbn [app]. rewrite col_merge_frames.
+    change (concat ((o :: old) :: f :: r)) with ((o :: old) ++ concat (f :: r)). unfold col. rewrite filter_app. reflexivity.
+Qed.
+Lemma In_bi_merge_list r old news : In r (bi_merge_list old news) -> In r (old ++ concat news).
+Proof.
+  unfold bi_merge_list.
+  assert (G : forall fs, In r (merge_frames (concat fs)) -> In r (concat fs)).
+  { intros fs H. unfold merge_frames in H. apply in_flat_map in H. destruct H as [d [_ H]].
+    apply (sub_In _ _ _ (sub_drop_repeats _)) in H. apply filter_In in H. destruct H as [H _].
+    apply (proj1 (ssort_In _ _)) in H. exact H. }
+  destruct old as [|o old].
+  - destruct news as [|f [|f2 r0]].
+    + simpl; auto.
+    + simpl. rewrite app_nil_r; auto.
+    + cbn [app]. intros H. apply (G (f :: f2 :: r0)) in H. exact H.
+  - destruct news as [|f r0]; cbn [app].
+    + simpl. rewrite app_nil_r. auto.
+    + intros H. apply (G ((o :: old) :: f :: r0)) in H. exact H.
+Qed.
+Lemma nondecr_app a b : stamps_nondecreasing (a ++ b) ->
+  stamps_nondecreasing a /\ stamps_nondecreasing b /\ forall w v, In w a -> In v b -> fst w <= fst v.
+Proof.
+  induction a as [|x a IH]; simpl; [tauto|]. intros [H1 H2]. destruct (IH H2) as [A [B C]].
+  apply Forall_app in H1. destruct H1 as [H1 H3]. repeat split; auto.
+  intros w v [<-|Hw] Hv; auto. rewrite Forall_forall in H3. auto.
+Qed.
+Lemma store_groups_snoc gs g : store_of_groups (gs ++ [g]) = bi_merge_list (store_of_groups gs) (map Bi g).
+Proof. unfold store_of_groups. rewrite fold_left_app. reflexivity. Qed.
+Theorem groups_invariant gs : Forall (fun g => g <> []) gs ->
+  stamps_nondecreasing (concat gs) -> series_ok (concat gs) ->
+  (forall d, colinv (col d (store_of_groups gs)) /\ same_reads (col d (store_of_groups gs)) (pubs (concat gs) d)) /\
+  (forall r, In r (store_of_groups gs) -> In r (flat_map Bi (concat gs))).
+Proof.
+  induction gs as [|g gs IH] using rev_ind; intros Hne Hs Hok.
+  - split; [|simpl; tauto]. intros d. unfold store_of_groups, pubs, col; simpl. repeat split; simpl; auto.
+  - apply Forall_app in Hne. destruct Hne as [Hne Hg]. inversion Hg as [|? ? Hg1 _]; subst. clear Hg.
+    rewrite concat_app in Hs, Hok |- *. cbn [concat] in Hs, Hok |- *. rewrite app_nil_r in Hs, Hok |- *.
+    destruct (nondecr_app _ _ Hs) as [Hs1 [Hs2 Hcross]]. unfold series_ok in Hok. apply Forall_app in Hok.
+    destruct Hok as [Hok1 Hok2]. destruct (IH Hne Hs1 Hok1) as [IH1 IH2]. clear IH.
+    rewrite store_groups_snoc. split.
+    + intros d. destruct (IH1 d) as [[Hss Hnp] Hsr].
+      assert (Hcat : concat (map Bi g) = flat_map Bi g) by (symmetry; apply flat_map_concat_map).
+      rewrite col_bi_merge_list.
+      * rewrite Hcat.
+        assert (Hp : pubs (concat gs ++ g) d = pubs (concat gs) d ++ pubs g d)
+          by (unfold pubs; rewrite flat_map_app, filter_app; reflexivity).
+        rewrite Hp. change (col d (flat_map Bi g)) with (pubs g d).
+        assert (Hw : wsorted (col d (store_of_groups gs) ++ pubs g d)).
+        { apply wsorted_app.
+          - apply ssorted_wsorted; auto.
+          - apply pubs_wsorted; auto.
+          - intros x y Hx Hy. apply filter_In in Hx, Hy. destruct Hx as [Hx _], Hy as [Hy _].
+            apply IH2 in Hx. apply in_flat_map in Hx, Hy. destruct Hx as [w [Hw Hx]], Hy as [v [Hv Hy]].
+            pose proof (Bi_stamp w) as B1. pose proof (Bi_stamp v) as B2. rewrite Forall_forall in B1, B2.
+            rewrite (B1 x Hx), (B2 y Hy). apply Hcross; auto. }
+        rewrite (ssort_id _ Hw). destruct (drop_repeats_ok _ Hw) as [A B]. split; auto.
+        eapply same_reads_trans; [exact B|]. apply same_reads_app; auto.
+      * destruct g; [congruence|discriminate].
+      * intros _ f Hf. destruct g as [|v [|v2 g']]; try discriminate. simpl in Hf. inversion Hf; subst.
+        apply col_Bi_len. inversion Hok2; auto.
+    + intros r Hr. apply In_bi_merge_list in Hr. rewrite flat_map_app. apply in_app_iff in Hr. apply in_app_iff.
+      destruct Hr as [Hr|Hr]; auto. right. rewrite flat_map_concat_map. exact Hr.
+Qed.
+Theorem groups_read_is_latest gs T : Forall (fun g => g <> []) gs ->
+  stamps_nondecreasing (concat gs) -> series_ok (concat gs) ->
+  bi_read (store_of_groups gs) (Some T) (-1) = spec_read T (concat gs) /\
+  bi_read (store_of_groups gs) (Some T) 0 = spec_first T (concat gs).
+Proof.
+  intros Hne Hs Hok. destruct (groups_invariant gs Hne Hs Hok) as [Hinv _].
+  rewrite spec_read_map, spec_first_map. apply read_general.
+  - intros d; apply Hinv.
+  - intros d; apply Hinv.
+  - intros d; apply pubs_wsorted; auto.
+  - apply sort_uniq_zs.
+  - intros d; apply hist_dates_complete.
+Qed.
